@@ -1,25 +1,30 @@
 (* CrashReplayProofs.v — C03, replay equivalence: what is proved, what is refuted, what is missing.
    PROVED (for all towers / blocks / scripts / crash indices in the stated range):
-     ins_block_replay        a block of tracker inserts re-executed after any prefix of itself = one execution
-     w_pure                  the watcher's listener is the execution of a statement list that is a pure function of
-                             (appointments, responder index, carrier height, node answers)
-     watcher_replay          the watcher's pass replayed after a kill at any point of its insert phase, node
-                             consistent and outside the recorded class (CrashReplay.replay_ok): EXACTLY the tables
-                             of the uninterrupted pass
-     gatekeeper_replay_done  the purge replayed after its commit (memory reloaded from the purged table): no statement
-     gw_replay               the two composed: kill anywhere in the gatekeeper + watcher-insert part of a block
-     watcher_replay_completed the watcher's pass delivered again after it COMPLETED (an earlier block of the
-                             interrupted poll: the last known block is written after all blocks): nothing changes
-     replay_block_upto_responder  after the replayed gatekeeper + watcher the responder starts from the same tables,
-                             index, heights, reorged set
-     register / add_appointment: see section 6 (crash states, resubmission)
-   REFUTED  replay_block_refuted: consistent node, kill between sendrawtransaction and the tracker INSERT, the
-            penalty confirmed while down: the replay is answered -27 and no tracker is ever created (the recorded
-            finding tracker-never-created-penalty-confirmed-while-down); replay_ok excludes exactly this.
-   MISSING (named hypotheses of the *_partial theorems): the responder's pass under replay (insensitivity of
-            check_confirmations / refund / stale rebroadcast to a memo that differs but is coherent with a
-            consistent script, and a kill inside the responder's own statements), hence whole-block and
-            multi-block composition. *)
+     ins_block_replay         a block of tracker inserts re-executed after any prefix of itself = one execution
+     w_pure / w_trace_pure    the watcher's listener is the execution of a statement list that is a pure function of
+                              (appointments, responder index, carrier height, node answers)
+     watcher_replay           the watcher's pass replayed after a kill at any point of its insert phase, node consistent
+                              and outside the recorded class (CrashReplay.replay_ok): EXACTLY the tables of the
+                              uninterrupted pass;  watcher_replay_completed: the pass delivered again after it
+                              COMPLETED (an earlier block of an interrupted multi-block poll) changes nothing
+     gatekeeper_replay_done / gatekeeper_replay_before   the purge replayed after / before its commit by a gatekeeper
+                              reloaded from the table: same tables, same map
+     responder_replay         the responder's pass from equal tables with a different (sound) memo, rejections stable:
+                              tables equal up to the stamp of unconfirmed trackers
+     replay_block, replay_connect, replay_connect_before   ONE BLOCK at operation level: kill anywhere from before the
+                              block up to (not including) the watcher's DELETE, restart, the block again: tables equal up
+                              to the stamp, outside the recorded class and with stable rejections
+     register_crash_two_states, add_resubmission_reply_lost   API operations (section 6)
+   REFUTED  replay_block_refuted: consistent node, kill between sendrawtransaction and the tracker INSERT, the penalty
+            confirmed while down: the replay is answered -27 and no tracker is ever created (the recorded finding
+            tracker-never-created-penalty-confirmed-while-down); replay_ok excludes exactly this class.
+            register_resubmission_refuted, add_resubmission_in_window_refuted: resubmission is not idempotent for
+            register (additive by design) nor inside the charge/store window (the in-flight cost).
+   NOT PROVED (nothing is assumed in their place; no theorem here claims them): a kill inside the responder's own
+            statements (confirmation updates, refund transaction, stale rebroadcast updates, final DELETE) or after
+            the watcher's DELETE but inside the same block; the responder's pass over a block it had COMPLETED; hence
+            the composition over all blocks of a multi-block poll; polls with disconnections (reorged set not empty).
+            These stay decided by the fault enumeration of the check (crash harness, "chain moves while down" family). *)
 From TeosModel Require Import Base ListAux TxIndex TxIndexProofs Tower TowerMon TowerStable TowerInv TowerProofs TowerLedger TowerBreach Crash CrashOps CrashOpsProofs CrashReplay.
 From TeosModel.Gen Require Consts Bootstrap.
 From Coq Require Import Lia.
@@ -1232,4 +1237,157 @@ Proof.
   pose proof (step_connect_block le (restart t d) hash txs sc2 Hn2) as Hy.
   destruct (step le (restart t d) (OConnect hash txs) sc2) as [tBr y] eqn:E2. cbn [fst snd] in *. subst y.
   exact (replay_connect_aux le sc1 sc2 t hash txs j tg tw tr d tBr HIf (conj Hre Hm) HG HW HR Hd Hok Hst E2).
+Qed.
+(* 12. the purge replayed after a kill BEFORE its commit: the gatekeeper's map reloaded from the (unpurged) table is the
+   same map in another order; the same users are outdated *)
+Lemma outdated_in delta h : forall us out,
+  outdated_users delta h us = Some out ->
+  forall u, In u out -> exists ui lim, In (u, ui) us /\ u32_add (u_expiry ui) delta = Some lim /\ N.leb lim h = true.
+Proof.
+  induction us as [|[u0 ui0] us IH]; intros out; cbn [outdated_users]; [intros H; inversion H; intros u []|].
+  destruct (u32_add (u_expiry ui0) delta) as [lim|] eqn:El; [|discriminate].
+  destruct (outdated_users delta h us) as [l|] eqn:Eo; [|discriminate].
+  intros H u Hu. inversion H; subst out; clear H. destruct (N.leb lim h) eqn:Eh.
+  - destruct Hu as [Hu|Hu]; [subst u0; exists ui0, lim; repeat split; [left; reflexivity|exact El|exact Eh]|].
+    destruct (IH l eq_refl u Hu) as [ui [lim' [A [B C]]]]. exists ui, lim'. repeat split; [right; exact A|exact B|exact C].
+  - destruct (IH l eq_refl u Hu) as [ui [lim' [A [B C]]]]. exists ui, lim'. repeat split; [right; exact A|exact B|exact C].
+Qed.
+
+Lemma outdated_total delta h : forall us,
+  (forall u ui, In (u, ui) us -> exists lim, u32_add (u_expiry ui) delta = Some lim) ->
+  exists out, outdated_users delta h us = Some out.
+Proof.
+  induction us as [|[u ui] us IH]; intros H; [exists []; reflexivity|]. cbn [outdated_users].
+  destruct (H u ui (or_introl eq_refl)) as [lim El]. rewrite El.
+  destruct IH as [l Hl]; [intros u' ui' Hin; apply (H u' ui'); right; exact Hin|]. rewrite Hl. eexists. reflexivity.
+Qed.
+
+Lemma del_users_ext d o1 o2 : (forall u, memN u o2 = memN u o1) -> exec d (SDelUsers o2) = exec d (SDelUsers o1).
+Proof.
+  intros H. unfold exec. cbn [exec_fuel]. f_equal; apply filter_ext_in'; intros x _; rewrite H; reflexivity.
+Qed.
+
+Lemma gk_block_db t h t' out :
+  outdated_users (c_delta (cfg t)) h (gk_users t) = Some out -> gk_block_connected t h = Ok tt t' ->
+  db_of t' = exec (db_of t) (SDelUsers out) /\ gk_users t' = filter (fun r => negb (memN (fst r) out)) (gk_users t).
+Proof.
+  intros Eo. unfold gk_block_connected. rewrite Eo. intros H; inversion H; subst; clear H. destruct out as [|o os].
+  - split.
+    + unfold exec, db_of. cbn [exec_fuel d_users d_apps d_trks db_users db_apps db_trks set_gk_height].
+      rewrite !filter_true by (intros; reflexivity). reflexivity.
+    + cbn. symmetry. apply filter_true. intros; reflexivity.
+  - split; reflexivity.
+Qed.
+
+Theorem gatekeeper_replay_before tA h tg tB :
+  Inv tA -> gk_block_connected tA h = Ok tt tg ->
+  cfg tB = cfg tA -> gk_users tB = db_users tA -> db_of tB = db_of tA ->
+  exists tgB, gk_block_connected tB h = Ok tt tgB /\ db_of tgB = db_of tg /\ gk_users tgB = db_users tg.
+Proof.
+  intros HI HG Hc Hg Hd.
+  assert (Ho1 : exists out1, outdated_users (c_delta (cfg tA)) h (gk_users tA) = Some out1).
+  { unfold gk_block_connected in HG. destruct (outdated_users _ _ _) as [o|]; [eexists; reflexivity|discriminate]. }
+  destruct Ho1 as [out1 Eo1].
+  assert (Hrows : forall u ui, In (u, ui) (db_users tA) <-> In (u, ui) (gk_users tA)).
+  { intros u ui. split; intros Hin.
+    - apply aget_In. rewrite (inv_sync tA HI u). apply aget_In_nodup; [exact (inv_users_nodup tA HI)|exact Hin].
+    - apply aget_In. rewrite <- (inv_sync tA HI u). apply aget_In_nodup; [exact (inv_mem_nodup tA HI)|exact Hin]. }
+  destruct (outdated_total (c_delta (cfg tA)) h (db_users tA)) as [out2 Eo2].
+  { intros u ui Hin. apply Hrows in Hin. destruct (outdated_spec _ _ _ _ Eo1 u ui Hin) as [lim [El _]]. exists lim. exact El. }
+  assert (Hmem : forall u, memN u out2 = memN u out1).
+  { intros u. destruct (memN u out2) eqn:E2; destruct (memN u out1) eqn:E1; try reflexivity; exfalso.
+    - apply memN_In in E2. destruct (outdated_in _ _ _ _ Eo2 u E2) as [ui [lim [A [B C]]]]. apply Hrows in A.
+      destruct (outdated_spec _ _ _ _ Eo1 u ui A) as [lim' [B' C']]. rewrite B in B'. inversion B'; subst lim'.
+      specialize (C' C). apply memN_In in C'. congruence.
+    - apply memN_In in E1. destruct (outdated_in _ _ _ _ Eo1 u E1) as [ui [lim [A [B C]]]]. apply Hrows in A.
+      destruct (outdated_spec _ _ _ _ Eo2 u ui A) as [lim' [B' C']]. rewrite B in B'. inversion B'; subst lim'.
+      specialize (C' C). apply memN_In in C'. congruence. }
+  assert (Eo2' : outdated_users (c_delta (cfg tB)) h (gk_users tB) = Some out2) by (rewrite Hc, Hg; exact Eo2).
+  assert (HGB : exists tgB, gk_block_connected tB h = Ok tt tgB).
+  { unfold gk_block_connected. rewrite Eo2'. eexists. reflexivity. }
+  destruct HGB as [tgB HGB]. exists tgB. split; [exact HGB|].
+  destruct (gk_block_db tA h tg out1 Eo1 HG) as [DA _]. destruct (gk_block_db tB h tgB out2 Eo2' HGB) as [DB GB].
+  split.
+  - rewrite DB, DA, Hd. apply del_users_ext. exact Hmem.
+  - rewrite GB, Hg. change (db_users tg) with (d_users (db_of tg)). rewrite DA. unfold exec. cbn [exec_fuel d_users db_of].
+    apply filter_ext_in'. intros x _. rewrite Hmem. reflexivity.
+Qed.
+
+(* watcher + responder of the replay from ANY post-gatekeeper state tgB that holds the crash database *)
+Lemma replay_block_from_gk le sc1 sc2 tg tgB hash txs h j tw tr tBw tBr :
+  Inv tg -> Inv tgB ->
+  reorged tg = [] -> car_memo tg = [] -> reorged tgB = [] -> car_memo tgB = [] ->
+  r_index tgB = r_index tg -> car_height tgB = car_height tg -> gk_users tgB = db_users tg ->
+  db_of tgB = execs (db_of tg) (firstn j (w_inserts sc1 tg txs)) ->
+  replay_ok tg (db_of tgB) txs sc1 sc2 -> rej_stable tg sc1 sc2 ->
+  w_block_connected sc1 tg (cache_block hash txs) h = Ok tt tw ->
+  r_block_connected le sc1 tw (index_block hash txs) h = Ok tt tr ->
+  w_block_connected sc2 tgB (cache_block hash txs) h = Ok tt tBw ->
+  r_block_connected le sc2 tBw (index_block hash txs) h = Ok tt tBr ->
+  eq_up_to_stamp (db_of tBr) (db_of tr).
+Proof.
+  intros HIg HIB Hre Hm HreB HmB Hi Hh Hgu Hdb Hok Hst HW HR HWB HRB.
+  pose proof (watcher_replay sc1 sc2 tg tgB hash txs h j tw tBw (memo_nil_coherent sc1 tg Hm) (memo_nil_coherent sc2 tgB HmB) Hi Hh Hdb Hok HW HWB) as Ed.
+  destruct (w_block_connected_frame sc1 tg hash txs h tw HIg HW) as [_ [_ [Wg [_ [_ [Wi [Wh [Wr _]]]]]]]].
+  destruct (w_block_connected_frame sc2 tgB hash txs h tBw HIB HWB) as [_ [_ [Vg [_ [_ [Vi [Vh [Vr _]]]]]]]].
+  apply (responder_replay le sc1 sc2 tw tBw (index_block hash txs) h tr tBr).
+  - repeat split; [exact Ed| |rewrite Vr, Wr, HreB, Hre; reflexivity].
+    intros u. rewrite Vg, Wg, Hgu. symmetry. apply (inv_sync tg HIg).
+  - rewrite Wr. exact Hre.
+  - rewrite Vi, Wi. exact Hi.
+  - apply coherent_sound. apply (w_coherent sc1 tg hash txs h tw (memo_nil_coherent sc1 tg Hm) HW).
+  - apply coherent_sound. apply (w_coherent sc2 tgB hash txs h tBw (memo_nil_coherent sc2 tgB HmB) HWB).
+  - intros tx. rewrite (rejected_height_indep tw tg), (rejected_height_indep tw tg (snd (script_get sc1 tx))). apply Hst.
+  - exact HR.
+  - exact HRB.
+Qed.
+
+(* REPLAY OF A BLOCK, kill BEFORE anything of it is durable (in particular before the purge's commit): the restarted
+   tower holds the tables of before the block and runs it with the node answering sc2: same tables up to the stamp as
+   the uninterrupted run with sc1, when the verdict on every breached row's penalty is unchanged (replay_ok on the
+   untouched tables) and rejections are stable *)
+Theorem replay_connect_before le t hash txs sc1 sc2 tg :
+  Inv t -> at_poll_boundary t ->
+  not_abort (snd (step le t (OConnect hash txs) sc1)) ->
+  gk_block_connected (fresh t) (gk_height t + 1) = Ok tt tg ->
+  replay_ok tg (db_of tg) txs sc1 sc2 -> rej_stable t sc1 sc2 ->
+  not_abort (snd (step le (restart t (db_of t)) (OConnect hash txs) sc2)) ->
+  eq_up_to_stamp (db_of (fst (step le (restart t (db_of t)) (OConnect hash txs) sc2))) (db_of (fst (step le t (OConnect hash txs) sc1))).
+Proof.
+  intros HI [Hre Hm] Hn HG Hok Hst Hn2.
+  assert (HIf : Inv (fresh t)) by (eapply inv_frame; [|exact HI]; repeat split).
+  pose proof (step_connect_block le t hash txs sc1 Hn) as Hx.
+  destruct (step le t (OConnect hash txs) sc1) as [tr x] eqn:E1. cbn [fst snd] in *. subst x.
+  destruct (connect_decomp le t hash txs sc1 tr E1) as [tg' [tw [HG' [HW HR]]]].
+  rewrite HG in HG'. inversion HG'; subst tg'. clear HG'.
+  pose proof (step_connect_block le (restart t (db_of t)) hash txs sc2 Hn2) as Hy.
+  destruct (step le (restart t (db_of t)) (OConnect hash txs) sc2) as [tBr y] eqn:E2. cbn [fst snd] in *. subst y.
+  destruct (connect_decomp le (restart t (db_of t)) hash txs sc2 tBr E2) as [tgB [tBw [HGB [HWB HRB]]]].
+  change (gk_height (restart t (db_of t))) with (gk_height t) in *.
+  destruct (gatekeeper_replay_before (fresh t) (gk_height t + 1) tg (fresh (restart t (db_of t))) HIf HG eq_refl) as [tgB' [HGB' [Dg Ug]]].
+  { reflexivity. }
+  { change (db_of (fresh (restart t (db_of t)))) with (db_of (restart t (db_of t))). rewrite db_of_restart. reflexivity. }
+  rewrite HGB in HGB'. inversion HGB'; subst tgB'. clear HGB'.
+  assert (HIg : Inv tg).
+  { pose proof (gk_block_connected_pres Inv (sa_block Inv inv_stable) (fresh t) (gk_height t + 1) HIf) as H. rewrite HG in H. exact H. }
+  assert (HIr : Inv (fresh (restart t (db_of t)))).
+  { eapply inv_frame; [|apply (recover_inv (volatile_reset t) (db_of t)); apply dbinv_of_inv; exact HI]. repeat split. }
+  assert (HIB : Inv tgB).
+  { pose proof (gk_block_connected_pres Inv (sa_block Inv inv_stable) _ (gk_height t + 1) HIr) as H. rewrite HGB in H. exact H. }
+  destruct (gk_block_frame _ _ _ HG) as [G1 [G2 [G3 [G4 _]]]]. destruct (gk_block_frame _ _ _ HGB) as [B1 [B2 [B3 [B4 _]]]].
+  apply (replay_block_from_gk le sc1 sc2 tg tgB hash txs (gk_height t + 1) 0 tw tr tBw tBr HIg HIB).
+  - rewrite G4. exact Hre.
+  - rewrite G3. exact Hm.
+  - rewrite B4. reflexivity.
+  - rewrite B3. reflexivity.
+  - rewrite B1, G1. reflexivity.
+  - rewrite B2, G2. reflexivity.
+  - exact Ug.
+  - cbn [firstn execs fold_left]. exact Dg.
+  - rewrite Dg. exact Hok.
+  - intros tx. rewrite (rejected_height_indep tg t), (rejected_height_indep tg t (snd (script_get sc1 tx))). apply Hst.
+  - exact HW.
+  - exact HR.
+  - exact HWB.
+  - exact HRB.
 Qed.
